@@ -39,21 +39,50 @@ fn reference(data: &[u8], target: usize, div: usize, mult: usize) -> Vec<usize> 
     out
 }
 
-fn real(data: &[u8], target: usize, pieces: &[usize]) -> Vec<usize> {
+/// mode 0: every call non-final, then finish(); mode 1: the last call carries is_final=true (no finish());
+/// mode 2: as mode 1, then the same chunker is fed the stream a second time (it must start clean).
+fn real(data: &[u8], target: usize, pieces: &[usize], mode: u8) -> Vec<usize> {
     let mut c = Chunker::new(target);
     let mut out = vec![];
-    let mut pos = 0;
-    let mut k = 0;
-    while pos < data.len() {
-        let n = pieces[k % pieces.len()].max(1).min(data.len() - pos);
-        k += 1;
-        for ch in c.next_block(&data[pos..pos + n], false) {
-            out.push(ch.data.len());
+    let mut cat: Vec<u8> = vec![];
+    let rounds = if mode == 2 { 2 } else { 1 };
+    for _round in 0..rounds {
+        let mut pos = 0;
+        let mut k = 0;
+        while pos < data.len() {
+            let n = pieces[k % pieces.len()].max(1).min(data.len() - pos);
+            k += 1;
+            let last = pos + n == data.len();
+            for ch in c.next_block(&data[pos..pos + n], mode != 0 && last) {
+                out.push(ch.data.len());
+                cat.extend_from_slice(&ch.data);
+            }
+            pos += n;
         }
-        pos += n;
+        if data.is_empty() && mode != 0 {
+            for ch in c.next_block(&[], true) {
+                out.push(ch.data.len());
+                cat.extend_from_slice(&ch.data);
+            }
+        }
     }
-    if let Some(ch) = c.finish() {
-        out.push(ch.data.len());
+    if mode == 0 {
+        if let Some(ch) = c.finish() {
+            out.push(ch.data.len());
+            cat.extend_from_slice(&ch.data);
+        }
+    }
+    let mut want_cat = data.to_vec();
+    if mode == 2 {
+        want_cat.extend_from_slice(data);
+    }
+    if cat != want_cat {
+        println!(
+            "WITNESS Chunker(target={target}) fed {} bytes in pieces {:?} (mode {mode}: 0=finish(), 1=last call is_final, 2=reused after a final call): the chunks concatenate to {} bytes, not to the {} bytes fed{}",
+            data.len(), pieces, cat.len(), want_cat.len(),
+            if cat.len() == want_cat.len() { " (same length, different bytes)" } else { "" }
+        );
+        std::process::exit(1);
     }
     out
 }
@@ -82,14 +111,41 @@ fn main() {
         for (name, s) in &streams {
             let want = reference(s, target, div, mult);
             for pieces in [vec![usize::MAX], vec![1usize], vec![4096], vec![(target / div).saturating_sub(70).max(1), 3, 1], vec![target * mult, 7], vec![8127, 1]] {
-                let got = real(s, target, &pieces);
+              for mode in 0u8..3 {
+                let got = real(s, target, &pieces, mode);
+                let want = if mode == 2 { let mut w = want.clone(); w.extend_from_slice(&want); w } else { want.clone() };
                 if got != want {
                     let i = got.iter().zip(want.iter()).position(|(a, b)| a != b).unwrap_or(got.len().min(want.len()));
                     println!(
-                        "WITNESS Chunker(target={target}) on a {name} stream of {} bytes (rng seed in VERIF_SEED) fed in pieces {:?}: chunk #{i} has length {:?} but the gear-hash rule gives {:?} ({} vs {} chunks)",
+                        "WITNESS Chunker(target={target}) on a {name} stream of {} bytes (rng seed in VERIF_SEED) fed in pieces {:?} (mode {mode}): chunk #{i} has length {:?} but the gear-hash rule gives {:?} ({} vs {} chunks)",
                         s.len(), pieces, got.get(i), want.get(i), got.len(), want.len()
                     );
                     std::process::exit(1);
+                }
+              }
+            }
+        }
+        // short streams (shorter than, and just around, the skip-ahead distance), every call pattern
+        let min = target / div;
+        let mut lens: Vec<usize> = (0..70).collect();
+        for d in [min.saturating_sub(66), min.saturating_sub(65), min.saturating_sub(64), min, min + 1] {
+            lens.push(d);
+        }
+        for &l in &lens {
+            let mut s = vec![0u8; l];
+            rng.fill(&mut s[..]);
+            let want = reference(&s, target, div, mult);
+            for pieces in [vec![usize::MAX], vec![1usize], vec![l.saturating_sub(1).max(1), 1]] {
+                for mode in 0u8..3 {
+                    let got = real(&s, target, &pieces, mode);
+                    let want = if mode == 2 { let mut w = want.clone(); w.extend_from_slice(&want); w } else { want.clone() };
+                    if got != want {
+                        println!(
+                            "WITNESS Chunker(target={target}) on a random stream of {l} bytes fed in pieces {:?} (mode {mode}): chunk lengths {:?} but the gear-hash rule gives {:?}",
+                            pieces, got, want
+                        );
+                        std::process::exit(1);
+                    }
                 }
             }
         }
